@@ -50,6 +50,7 @@ type c04Spec struct {
 	BodyLatencyMs   int       `json:"body_latency_ms,omitempty"` // http-json: the JSON body of every tools/call response is this long in transit after its headers (a cancel or deadline can fall into that window)
 	NestAtOnce      bool      `json:"nest_at_once,omitempty"`    // s2c calls: the tool handler returns the moment its cancelled nested call has returned (the cancellation notice is sent asynchronously and must still reach the client)
 	CallerClose     bool      `json:"caller_close,omitempty"`    // sdk mode, persistent transports: at the end the caller's own session is closed gracefully with two calls parked at the peer; one of them is then cancelled (its notice must still go out), the other completes
+	NilParams       string    `json:"nil_params,omitempty"`      // sdk mode, legacy session: after the follow-up a call made WITHOUT params (c2s: ListTools(ctx, nil); s2c: ListRoots(ctx, nil) on a stateful session) is parked at the peer and cancelled: the peer's handler for it must see that
 	DrainCancel     int       `json:"drain_cancel,omitempty"`    // sdk mode, persistent transports: at the end this many parked calls are cancelled while the callee is already draining under a graceful Close
 }
 
@@ -71,6 +72,9 @@ func genC04(r *vh.Rand) c04Spec {
 		}
 		if s.Transport == "http-stateless" {
 			s.Propagate = r.Bool()
+		}
+		if s.Version != "" && s.Transport != "http-stateless" && r.Chance(1, 4) {
+			s.NilParams = r.Choose("c2s", "s2c")
 		}
 	}
 	k := r.Range(1, 8)
@@ -313,6 +317,29 @@ func runC04SDK(c *vh.Case, spec c04Spec) {
 			return &mcp.CreateMessageResult{Model: "m", Role: "assistant", Content: &mcp.TextContent{Text: fmt.Sprintf("nonce-%d", n)}}, nil
 		},
 	})
+	// calls made without params (NilParams): parked by method, there is only ever one of them
+	npRelease := make(chan struct{})
+	npPark := func(method string) mcp.Middleware {
+		return func(next mcp.MethodHandler) mcp.MethodHandler {
+			return func(ctx context.Context, m string, req mcp.Request) (mcp.Result, error) {
+				if m == method && spec.NilParams != "" {
+					log.Add("np-handler-start", "method", m)
+					select {
+					case <-ctx.Done():
+						log.Add("np-handler-ctx-done", "method", m)
+					case <-npRelease:
+					}
+				}
+				return next(ctx, m, req)
+			}
+		}
+	}
+	if spec.NilParams == "c2s" {
+		server.AddReceivingMiddleware(npPark("tools/list"))
+	} else if spec.NilParams == "s2c" {
+		client.AddRoots(&mcp.Root{URI: "file:///r", Name: "r"})
+		client.AddReceivingMiddleware(npPark("roots/list"))
+	}
 	pair, err := vhm.Connect(ctx, vhm.PairOpts{Kind: spec.Transport, Server: server, Client: client, ClientVersion: spec.Version, DisableStandaloneSSE: spec.NoStandaloneSSE, AsyncDelete: true, HTTPOpts: &mcp.StreamableHTTPOptions{PropagateRequestCancellation: spec.Propagate},
 		BodyLatency: func(req *http.Request, body []byte) time.Duration {
 			if spec.BodyLatencyMs > 0 && req.Method == http.MethodPost && bytes.Contains(body, []byte(`"name":"park"`)) {
@@ -408,6 +435,39 @@ func runC04SDK(c *vh.Case, spec c04Spec) {
 	}
 	res, err := cs.CallTool(ctx, &mcp.CallToolParams{Name: "park", Arguments: map[string]any{"nonce": 9000}})
 	log.Add("followup", "what", "call", "outcome", c04Classify(textOf(res), err), "want", "ok:nonce-9000")
+	if spec.NilParams != "" && (spec.NilParams == "c2s" || (pair.SS != nil && !spec.NoStandaloneSSE)) {
+		nctx, ncancel := context.WithCancel(ctx)
+		done := make(chan error, 1)
+		go func() {
+			defer c.Guard("")
+			var err error
+			if spec.NilParams == "c2s" {
+				_, err = cs.ListTools(nctx, nil)
+			} else {
+				_, err = pair.SS.ListRoots(nctx, nil)
+			}
+			done <- err
+		}()
+		time.Sleep(ms(1))
+		if len(log.Find("np-handler-start")) == 1 {
+			t0 := log.Now()
+			ncancel()
+			err := <-done
+			if !errors.Is(err, context.Canceled) || log.Now() != t0 {
+				c.Violate("cancel-not-prompt", "a %s call made without params was cancelled at %v and returned %v at %v", spec.NilParams, t0, err, log.Now())
+			}
+			time.Sleep(ms(1))
+			if len(log.Find("np-handler-ctx-done")) != 1 && !c.Violated() {
+				c.Violate("handler-not-cancelled", "%s call made without params (%s) over %s: cancelled by its caller at %v on a healthy connection; a millisecond later the peer's handler for it has not been cancelled", spec.NilParams,
+					map[string]string{"c2s": "ListTools(ctx, nil)", "s2c": "ListRoots(ctx, nil)"}[spec.NilParams], spec.Transport, t0)
+			}
+			c.Count("calls_without_params_cancelled", 1)
+		} else {
+			ncancel()
+			<-done
+		}
+		close(npRelease)
+	}
 	if spec.DrainCancel > 0 && pair.SS != nil {
 		// The callee starts a graceful Close while calls are parked in its handlers, and only then do the
 		// callers give up: the cancellation must still reach exactly those handlers (at that instant), which
